@@ -94,6 +94,11 @@ BalancedTree(d) ==
   UNION { { <<LevelOff(d.br, l) + q + 1, LevelOff(d.br, l + 1) + d.br * q + ch + 1>> :
               q \in 0..(Pow(d.br, l) - 1), ch \in 0..(d.br - 1) } : l \in 0..(d.lev - 2) }
 
+\* a macro taken from an itp file (-from_file): its residues in the order of the file, named as in the file, joined where the
+\* file bonds them (bonds = pairs of positions 1..); the residue numbers used inside the itp file (resids) are irrelevant
+MacroSize(d) == IF d.kind = "file" THEN Len(d.names) ELSE TreeSize(d)
+MacroShape(d) == IF d.kind = "file" THEN {<<d.bonds[x][1], d.bonds[x][2]>> : x \in 1..Len(d.bonds)} ELSE BalancedTree(d)
+MacroName(d, a) == IF d.kind = "file" THEN d.names[a] ELSE d.res          \* a-th residue (from 1) of the macro
 DefOf(i, x) == i.defs[i.seq[x]]                       \* definition of the x-th instance (1-based)
 \* instance x occupies the residues off[x]+1 .. off[x]+sz[x]; residue a (from 0) of instance s (from 0), as connect /
 \* modification / label records name them, is residue off[s+1] + a + 1
@@ -103,19 +108,19 @@ GenLab(i, s) == { <<i.labels[x].key, i.labels[x].val>> :
                                                              i.labels[y].i = i.labels[z].i /\ i.labels[y].key = i.labels[z].key } }
 ExpGenSeqFull(i) ==
   LET m == Len(i.seq)
-      sz == [x \in 1..m |-> TreeSize(DefOf(i, x))]
+      sz == [x \in 1..m |-> MacroSize(DefOf(i, x))]
       off == [x \in 1..(m + 1) |-> SumF(sz, x - 1)]
       N == off[m + 1]
       of == [r \in 1..N |-> CHOOSE x \in 1..m : off[x] < r /\ r <= off[x] + sz[x]]
       res(s, a) == off[s + 1] + a + 1
-      E == (UNION { { Edge(off[x] + p[1], off[x] + p[2], "") : p \in BalancedTree(DefOf(i, x)) } : x \in 1..m })
+      E == (UNION { { Edge(off[x] + p[1], off[x] + p[2], "") : p \in MacroShape(DefOf(i, x)) } : x \in 1..m })
            \cup
            (UNION { { Edge(res(i.connects[x].i, i.connects[x].pairs[y][1]), res(i.connects[x].j, i.connects[x].pairs[y][2]), "")
                       : y \in 1..Len(i.connects[x].pairs) } : x \in 1..Len(i.connects) })
       deg == [r \in 1..N |-> Deg(E, r)]
       recs(r) == {x \in 1..Len(i.ends) : i.ends[x].i + 1 = of[r]}
       \* termini of an instance = its residues with exactly one neighbour in the whole molecule; the last record for an instance wins
-      nm(r) == IF recs(r) # {} /\ deg[r] = 1 THEN i.ends[Largest(recs(r))].name ELSE DefOf(i, of[r]).res
+      nm(r) == IF recs(r) # {} /\ deg[r] = 1 THEN i.ends[Largest(recs(r))].name ELSE MacroName(DefOf(i, of[r]), r - off[of[r]])
   IN [g |-> [n |-> N, name |-> [r \in 1..N |-> nm(r)], inst |-> [r \in 1..N |-> of[r] - 1],
              lab |-> [r \in 1..N |-> GenLab(i, of[r] - 1)], edges |-> E],
       \* a residue without any neighbour in an instance whose termini are renamed: "terminus" is not defined for it
@@ -208,6 +213,13 @@ MonsToGraph(ms) ==
       nn == IF "F2" \in Dev /\ E = {} THEN 0 ELSE n
   IN [Plain([x \in 1..nn |-> NameOf(ms[x])]) EXCEPT !.edges = E]
 
+\* parse_ig: the first line after the comments is the title; it is dropped whatever it is spelled with
+\* (deviation TitleAsSeq: a title made of the letters A, C, G, T only is read as sequence)
+ReadTitle ==
+  /\ pc = "title"
+  /\ mons' = IF "TitleAsSeq" \in Dev /\ \A x \in 1..Len(inp.title) : inp.title[x] \in {"A", "C", "G", "T"}
+             THEN [x \in 1..Len(inp.title) |-> [b |-> Table(inp.kind)[inp.title[x]], s |-> ""]] ELSE <<>>
+  /\ pc' = "lines" /\ last' = "ReadTitle" /\ UNCHANGED <<inp, k, c, g, aux>>
 ReadLine ==
   /\ pc = "lines" /\ k <= Len(inp.lines)
   /\ LET toks == SubSeq(inp.toks, LineStart(inp, k) + 1, LineStart(inp, k) + inp.lines[k])
@@ -249,15 +261,25 @@ NextBlock ==
 (* ------------------------------------------------------------------ *)
 \* networkx balanced_tree: residue ch > 1 hangs on residue (ch - 2) div br + 1
 MacroEdges(d) ==
-  LET lev == IF "TreeHeight" \in Dev THEN d.lev + 1 ELSE d.lev
-      size == LevelOff(d.br, lev)
-  IN [size |-> size,
-      edges |-> {<<IF "TreePath" \in Dev THEN ch - 1 ELSE (ch - 2) \div d.br + 1, ch>> : ch \in 2..size}]
+  IF d.kind = "file"
+  THEN \* MacroFile.gen_graph: residue graph of the block, nodes in file order, resname only
+       [size |-> Len(d.names),
+        edges |-> IF "FileNoEdges" \in Dev THEN {} ELSE {<<d.bonds[x][1], d.bonds[x][2]>> : x \in 1..Len(d.bonds)}]
+  ELSE LET lev == IF "TreeHeight" \in Dev THEN d.lev + 1 ELSE d.lev
+           size == LevelOff(d.br, lev)
+       IN [size |-> size,
+           edges |-> {<<IF "TreePath" \in Dev THEN ch - 1 ELSE (ch - 2) \div d.br + 1, ch>> : ch \in 2..size}]
 NodesOf(x, s) == LET idx == {r \in 1..x.n : x.inst[r] = s}      \* find_atoms(graph, "seqid", s), in node order
                  IN [p \in 1..Cardinality(idx) |-> CHOOSE r \in idx : Cardinality({q \in idx : q < r}) = p - 1]
 \* idx_nodes[int(a)]  (deviation ConnOff: idx_nodes[int(a) - 1], Python's negative index wraps around)
-Pick(x, s, a) == LET ns == NodesOf(x, s) IN
-                 IF "ConnOff" \in Dev THEN (IF a = 0 THEN ns[Len(ns)] ELSE ns[a]) ELSE ns[a + 1]
+Pick(x, s, a) == LET ns == NodesOf(x, s)
+                     d == inp.defs[inp.seq[s + 1]]
+                 IN IF "ConnOff" \in Dev THEN (IF a = 0 THEN ns[Len(ns)] ELSE ns[a])
+                    \* deviation: for a file macro the index is taken for the residue number of the itp file
+                    ELSE IF "FileConnByResid" \in Dev /\ d.kind = "file"
+                         THEN (IF \E p \in 1..Len(d.resids) : d.resids[p] = a + 1
+                               THEN ns[CHOOSE p \in 1..Len(d.resids) : d.resids[p] = a + 1] ELSE ns[Len(ns)])
+                    ELSE ns[a + 1]
 \* after the last macro instance: one _add_edges call per connect record, then one call of
 \* _apply_termini_modifications and one of _tag_nodes (each loops over its records), then the JSON is written
 AfterMacros(x) == IF x < Len(inp.seq) THEN [pc |-> "macros", k |-> x + 1]
@@ -268,7 +290,7 @@ AddMacro ==
          m == MacroEdges(d)
          off == g.n
      IN g' = [n |-> off + m.size,
-              name |-> g.name \o [x \in 1..m.size |-> d.res],
+              name |-> g.name \o [x \in 1..m.size |-> MacroName(d, x)],
               inst |-> g.inst \o [x \in 1..m.size |-> k - 1],
               lab |-> g.lab \o [x \in 1..m.size |-> {}],
               edges |-> g.edges \cup {Edge(off + p[1], off + p[2], "") : p \in m.edges}]
@@ -352,13 +374,13 @@ CStep ==
 
 (* ------------------------------------------------------------------ *)
 InitRest ==
-        /\ pc = CASE inp.fam = "file" -> "lines" [] inp.fam = "seqlist" -> "blocks" [] inp.fam = "genseq" -> "macros"
+        /\ pc = CASE inp.fam = "file" -> (IF inp.fmt = "ig" THEN "title" ELSE "lines") [] inp.fam = "seqlist" -> "blocks" [] inp.fam = "genseq" -> "macros"
                   [] inp.fam = "json" -> "read" [] inp.fam = "dsdna" -> "cstart"
         /\ k = 1 /\ c = 0 /\ mons = <<>> /\ g = EmptyG
         /\ aux = IF inp.fam = "json" THEN JsonDoc(inp) ELSE [cur |-> 0, corr |-> <<>>]
         /\ last = "Init"
 \* the wrappers (SeqInputMC, SeqInputTrace) say which inputs are explored: Init == <choose inp> /\ InitRest
-Next == ReadLine \/ EndLines \/ Close \/ AddMonomer \/ NextBlock
+Next == ReadTitle \/ ReadLine \/ EndLines \/ Close \/ AddMonomer \/ NextBlock
         \/ AddMacro \/ AddConnect \/ ModTer \/ Label \/ Write \/ ReadBack \/ CStart \/ CStep
 
 (* ------------------------------------------------------------------ *)
